@@ -200,6 +200,9 @@ var families = []family{
 	{name: "W-recompile", fe: "workflow", lenQ: 4, lenT: 5, prelude: []Op{WL("a", in("start")), WL("b", inND("a")), WB("a", "b", "end")},
 		alpha: []Op{WA("end", in("b")), K(""), K("max"), K("name"), sv(WS("c", inF("a", "X")), "Y"), WA("end", dep("c")), sv(WA("c"), "X"), sv(WA("c"), "Y"),
 			WB("a", "b", "end"), sv(WL("b", inND("a")), "Q")}},
+	// the same with END connected from the start: the Compile calls that fail are those with a step limit
+	{name: "W-recompile-step-limit", fe: "workflow", lenQ: 4, lenT: 5, prelude: []Op{WL("a", in("start")), WL("b", inND("a")), WB("a", "b", "end"), WA("end", in("b"))},
+		alpha: []Op{K(""), K("max"), K("name"), sv(WS("c", inF("a", "X")), "Y"), sv(WA("c"), "Y"), sv(WA("c"), "X"), WA("end", dep("c")), WB("a", "b", "end")}},
 	// interrupt points are given by node key
 	{name: "G-interrupt-keys", fe: "graph", lenQ: 3, lenT: 3, prelude: []Op{L("a"), L("b"), E("start", "a"), E("a", "b"), E("b", "end")},
 		alpha: []Op{K("ib=a"), K("ia=b"), K("ib=zz"), K("store+ia=zz"), K("ib=end"), K("ia=start"), K("ib=a+ia=zz"), K("ib=a,b+store"), K("ib=a,zz"), K(""), GN("c", subOpt(subGraphLine, "ib=a")),
